@@ -128,7 +128,14 @@ where
 impl Arithmetic for i128 {
     fn add(self, other: Expression) -> Result<Expression, Error> {
         match other {
-            Expression::Number(y) => Ok(Expression::Number(self + y)),
+            Expression::Number(y) => match self.checked_add(y) {
+                Some(sum) => Ok(Expression::Number(sum)),
+                None => Err(Error::InvalidBinaryOp(
+                    "add".to_string(),
+                    format!("{self:?}"),
+                    format!("{y:?}"),
+                )),
+            },
             Expression::None => Ok(Expression::Number(self)),
             _ => Err(Error::InvalidBinaryOp(
                 "add".to_string(),
@@ -144,7 +151,10 @@ impl Arithmetic for i128 {
     }
 
     fn neg(self) -> Result<Expression, Error> {
-        Ok(Expression::Number(-self))
+        match self.checked_neg() {
+            Some(negated) => Ok(Expression::Number(negated)),
+            None => Err(Error::InvalidUnaryOp("neg".to_string(), format!("{self:?}"))),
+        }
     }
 }
 
